@@ -673,8 +673,8 @@ class Style:
 NO_TRAILING_COMMENT = ('str', 'gap', 'incbytes', 'raw')
 # comment texts: anything may follow the '#', in particular characters that mean something elsewhere on a line
 WHOLE_COMMENTS = ['# note', '# x1, x2', '# string hello', '# L: addi', "# it's (paren", "#'quoted'", '#', '##', '#,', '# K = 5', '#:', '#\t tab',
-                  '# error no', '#include x', '# 0x10 )', '#"dq"', "# '#'", '#=']
-TRAIL_COMMENTS = ['  # trailing', ' #x', '\t# a, b (c)', '#tight', " #'spin'", " # it's", ' ##', ' #,', ' # )', ' #(', ' # 1 + 2', ' #:', " #'", ' # = 4']
+                  '# error no', '#include x', '# 0x10 )', '#"dq"', "# '#'", '#=', '# C:\\chips\\gd32\\', '#\\']
+TRAIL_COMMENTS = ['  # trailing', ' #x', '\t# a, b (c)', '#tight', " #'spin'", " # it's", ' ##', ' #,', ' # )', ' #(', ' # 1 + 2', ' #:', " #'", ' # = 4', ' # dir\\', ' #\\']
 
 
 def render(items, style=None):
